@@ -21,6 +21,7 @@ mod c13;
 mod c16;
 mod c18;
 mod c14;
+mod dce;
 mod probe;
 mod rng;
 mod sexp;
@@ -52,6 +53,7 @@ fn main() {
         "c16" => c16::main(&args),
         "c18" => c18::main(&args),
         "c14" => c14::main(&args),
+        "dce" => dce::main(&args),
         "probe" => probe::main(&args),
         other => {
             eprintln!("unknown subcommand {}", other);
